@@ -77,6 +77,13 @@ async fn handle_http_proxy_connection(
 
     if request.is_connect {
         send_connect_success(&mut client_conn).await?;
+        // Bytes that arrived together with the CONNECT header belong to the
+        // tunnel: forward them (once) before relaying the rest.
+        if !request.body.is_empty() {
+            session
+                .write_data_frame(proxy_stream.id(), Bytes::from(request.body.clone()))
+                .await?;
+        }
     } else {
         let request_bytes = build_forward_request(&request)?;
         session
